@@ -380,7 +380,7 @@ impl<'a> Model for SeqModel<'a> {
 
 fn compile(tok_src: &str) -> Result<processor::Program, String> {
     match mcx::guard::catch(|| assembler().compile(tok_src)) {
-        Err(p) => panic!("assembler panicked on {tok_src}: {p}"),
+        Err(p) => panic!("SUBJECT: assembler panicked on {tok_src}: {p}"),
         Ok(Ok(p)) => Ok(p),
         Ok(Err(e)) => Err(format!("{e}")),
     }
